@@ -73,6 +73,20 @@ RECURSIVE NoNamesakes(_)
 NoNamesakes(tb) == /\ \A i, j \in 1..Len(tb.ports) : i # j => PathKey(tb.ports[i].pat.segs) # PathKey(tb.ports[j].pat.segs)
                    /\ \A i \in 1..Len(tb.ports) : tb.ports[i].leaf \/ NoNamesakes(tb.ports[i].sub)
 
+\* ------------------------------------------------------------------ derived tables (ClonePorts, MergePorts)
+\* MergePorts: the ports of the given tables in order, a port whose NAME is already present is left out (no default handler).
+\* ClonePorts: the named ports of a table in the order of the names (a "*" entry stands for the default handler).
+NameIn(n, ps) == \E i \in 1..Len(ps) : ps[i].name = n
+RECURSIVE MergeSeq(_, _)
+MergeSeq(acc, ps) == IF ps = <<>> THEN acc ELSE MergeSeq(IF NameIn(Head(ps).name, acc) THEN acc ELSE Append(acc, Head(ps)), Tail(ps))
+Merge(t1, t2) == [dflt |-> FALSE, ports |-> MergeSeq(MergeSeq(<<>>, t1.ports), t2.ports)]
+Clone(tb, names, withDefault) == [dflt |-> withDefault, ports |-> [k \in 1..Len(names) |-> (CHOOSE i \in 1..Len(tb.ports) : tb.ports[i].name = names[k] /\ \A j \in (i + 1)..Len(tb.ports) : tb.ports[j].name # names[k]) ] ]
+\* (ClonePorts keeps the LAST port of that name; the function above yields positions - CloneTable turns them into ports)
+CloneTable(tb, names, withDefault) == LET c == Clone(tb, names, withDefault) IN [dflt |-> c.dflt, ports |-> [k \in 1..Len(names) |-> tb.ports[c.ports[k]]]]
+Names(tb) == [i \in 1..Len(tb.ports) |-> tb.ports[i].name]
+DistinctNames(tb) == \A i, j \in 1..Len(tb.ports) : i # j => tb.ports[i].name # tb.ports[j].name
+\* the two routes the conformance driver uses to build a table it already has: they must give the table back
+MergeOfOverlappingHalves(tb, k) == Merge([dflt |-> FALSE, ports |-> SubSeq(tb.ports, 1, k)], [dflt |-> FALSE, ports |-> SubSeq(tb.ports, k, Len(tb.ports))])
 \* ------------------------------------------------------------------ lookup (C18, second sentence)
 \* the port a walked address names: the unique leaf the address reaches
 LookupIds(tree, addr) == { c.id : c \in Range(Dispatch(tree, addr, <<>>)) }
